@@ -236,7 +236,7 @@ def emit_clustal(names, rows, width=60, header=b'CLUSTAL W (1.83) multiple seque
     return b''.join(out)
 
 
-def emit_msf(names, rows, width=50, group=10, kind='N', crlf=False, gapch=b'.', title=b'x.msf', ragged=None):
+def emit_msf(names, rows, width=50, group=10, kind='N', crlf=False, gapch=b'.', title=b'x.msf', ragged=None, sep_blank=True):
     nl = b'\r\n' if crlf else b'\n'
     L = len(rows[0]) if rows else 0
     w = max(len(n) for n in names) + 2
@@ -249,7 +249,7 @@ def emit_msf(names, rows, width=50, group=10, kind='N', crlf=False, gapch=b'.', 
     out.append(b' ' + title + b'  MSF: %d  Type: %s  January 01, 2000 12:00  Check: %d  ..' % (L, kind.encode(), tot) + nl + nl)
     for n, c in zip(names, chks):
         out.append(b' Name: ' + n.ljust(w) + b' Len: %5d  Check: %4d  Weight: 1.00' % (L, c) + nl)
-    out.append(nl + b'//' + nl + nl)
+    out.append(nl + b'//' + nl + (nl if sep_blank else b''))      # the blank line after the separator is customary, not required
     if width <= 0:
         width = max(L, 1)
     for off in range(0, max(L, 1), width):
